@@ -109,6 +109,24 @@ Theorem C09_home_creation_refuted :
 Proof. exact home_creation_refuted. Qed.
 Print Assumptions C09_home_creation_refuted.
 
+(* Why the defect needs predefined_collections: without them the w section of the unchanged gate is
+   create_collection(home) = makedirs, a no-op on an existing home, and the unchanged gate is serialisable as well. *)
+Theorem C09_unchanged_gate_without_predefined :
+  forall cfg u pol (rq : list request) s0 sch c' rs,
+  let reqs := map (fun r => (Some u, pol, r)) rq in
+  store_inv s0 -> may_create pol u = true ->
+  (forall r, In r rq -> spares_home u r) ->
+  exec sch (init s0 (map (breq_prog false [] cfg) reqs)) = Some c' -> finished c' rs ->
+  exists order,
+    Permutation order (seq 0 (length rq)) /\
+    subseq order sch /\
+    (forall a b, In a order -> In b order -> a <> b -> precedes sch a b -> before a b order) /\
+    fst (serial_handle [] cfg reqs order s0) = fst c' /\
+    map fst (snd (serial_handle [] cfg reqs order s0)) = order /\
+    (forall i r, In (i, r) (snd (serial_handle [] cfg reqs order s0)) -> nth_error rs i = Some r).
+Proof. exact unchanged_gate_without_predefined. Qed.
+Print Assumptions C09_unchanged_gate_without_predefined.
+
 (* ---------------------------------------------------------------- the REPAIRED gate *)
 (* Any number of concurrent requests of ONE user -- including the very first ones, predefined collections
    configured, any initial store -- provided none of them deletes the root or the home itself: equivalent
